@@ -110,6 +110,7 @@ func cmdCross(args []string) int {
 		if err != nil {
 			return nil, err
 		}
+		defer rules.Release(p)
 		out := map[string]map[string]bool{}
 		for _, id := range rules.IDs() {
 			c := rules.Get(id)
@@ -196,7 +197,7 @@ func cmdCrossDir(args []string) int {
 		if err != nil {
 			return nil, err
 		}
-		defer p.Release()
+		defer rules.Release(p)
 		lastNotes = p.Canon.Notes
 		out := map[string]map[string]bool{}
 		for _, id := range rules.IDs() {
